@@ -4,7 +4,8 @@
    TIER = "quick" | "thorough" (environment). *)
 EXTENDS FiniteStrain, TLC, Json, IOUtils, SequencesExt
 Thorough == IOEnv.TIER = "thorough"
-MaxLen == IF Thorough THEN 4 ELSE 3
+\* paths of at most 3 conversions; thorough: at most 4 for the anisotropic law with F0 = Id
+MaxLen == 3
 Sh(i, j, v) == Add(Id3, Scale(v, El(i, j)))                 \* elementary shear
 RotZ == <<<<0, -1, 0>>, <<1, 0, 0>>, <<0, 0, 1>>>>           \* rotation of 90 degrees about e3
 RotX == <<<<1, 0, 0>>, <<0, 0, -1>>, <<0, 1, 0>>>>
@@ -21,13 +22,14 @@ F0s(n) == IF n = 1 THEN {Id3, Diag(2, 1, 1), Diag(1, 1, 2)}
           ELSE IF n = 2 THEN {Id3, Sh(2, 1, 1), Mul(Diag(2, 1, 1), Sh(1, 2, -1))}
           ELSE {Id3, Mul(Sh(1, 2, 1), Sh(3, 1, -1)), Mul(Diag(1, 2, 1), Sh(2, 3, 1))}
 \* hyperelastic laws S = S0 + Dp : (C - I)
-G(n) == SymOf(Embed(n, <<2, 1, 3, 1, -1, 2>>))
-A(n) == SymOf(Embed(n, <<1, -1, 2, 1, 1, -1>>))
+G(n) == SymOf(Embed(n, <<-3, -1, 2, 3, -3, -1>>))
+A(n) == SymOf(Embed(n, <<-3, -2, 2, 3, -1, -1>>))
 Laws(n) == {[S0 |-> RowMajor(Zero3), Dp |-> NatMat(LAMBDA X : Add(Scale(Trace(X), Id3), X), TRUE, "sym", n)],          \* Saint Venant-Kirchhoff, lambda = 2, mu = 1
             [S0 |-> RowMajor(A(n)), Dp |-> NatMat(LAMBDA X : Add(Mul(G(n), Mul(X, G(n))), Scale(Contract(A(n), X), A(n))), TRUE, "sym", n)],   \* anisotropic, residual stress
             [S0 |-> RowMajor(G(n)), Dp |-> NatMat(LAMBDA X : Scale(2, X), TRUE, "sym", n)]}
 CoreSeq == SetToSeq(Core)
 PathSeq == SetToSeq(Paths(CoreEdges, MaxLen))
+PathSeq4 == SetToSeq(Paths(CoreEdges, 4))
 FFs(n) == IF Thorough THEN F0s(n) \X F1s(n)
           ELSE {<<Id3, f1>> : f1 \in F1s(n)} \cup {<<f0, CHOOSE f \in F1s(n) : Det(f) > 1>> : f0 \in F0s(n)}
 \* quick: the anisotropic law with residual stress (the most discriminating) with every (F0, F1), the two others with a shear and a det > 1
@@ -40,7 +42,7 @@ TangentN(n) ==
   {[kind |-> "tangent", n |-> n, S0 |-> lf[1].S0, Dp |-> lf[1].Dp, F0 |-> RowMajor(lf[2][1]), F1 |-> RowMajor(lf[2][2]), J |-> Det(lf[2][2]),
     tau |-> RowMajor(TauOf(lf[1], lf[2][2])),
     ops |-> [i \in 1..Len(CoreSeq) |-> [f |-> CoreSeq[i], k |-> KF(CoreSeq[i], lf[2][2]), m |-> Truth(CoreSeq[i], lf[1], n, lf[2][1], lf[2][2])]],
-    paths |-> PathSeq]
+    paths |-> IF Thorough /\ lf[1] = Aniso(n) /\ lf[2][1] = Id3 THEN PathSeq4 ELSE PathSeq]
    : lf \in LFs(n)}
 Tangent == TangentN(1) \cup TangentN(2) \cup TangentN(3)
 \* stress conversions: integer stresses, deformation gradients and stretches
@@ -61,6 +63,10 @@ ASSUME \A n \in 1..3 : /\ \A law \in Laws(n) : MajorSym(law.Dp) /\ IsSym(OfRowMa
                        /\ \A u \in Us(n) : Det(u) > 0 /\ IsSym(u) /\ HasShape(n, u)
 \* every edge is exercised alone, every ordered pair of distinct flags is joined by some path followed
 ASSUME \A e \in CoreEdges : <<e[2], e[1]>> \in Paths(CoreEdges, MaxLen)
+\* the anisotropic law is generic: every component of its moduli is non-zero, no two components of a row are equal in magnitude
+ASSUME \A n \in 1..3 : LET L == Aniso(n).Dp IN
+          /\ \A d \in 1..NSym(n), c \in 1..NSym(n) : L[d][c] # 0
+          /\ \A d \in 1..NSym(n), c1 \in 1..NSym(n), c2 \in 1..NSym(n) : c1 # c2 => L[d][c1] # L[d][c2]
 ASSUME ndJsonSerialize(IOEnv.OUT, Number(Tangent) \o [i \in 1..Cardinality(Stresses) |-> [Number(Stresses)[i] EXCEPT !.id = @ + Cardinality(Tangent)]])
 ASSUME PrintT(<<"GEN", Cardinality(Tangent), Len(PathSeq), Cardinality(Stresses)>>)
 =============================================================================
